@@ -233,3 +233,29 @@ def kc_init(a):
         np.random.choice = orig_choice
         _kc.PageRank = orig_pr
     return {'centers': tolist(centers), 'choices': choices, 'scores': scores}
+
+
+def propagation_post(a):
+    """Real PropagationClustering.fit with Propagation.fit replaced by a prescribed raw labelling: exercises the
+    compaction, the sort under sort_clusters, the split and the secondary outputs as coded."""
+    from sknetwork.classification.propagation import Propagation
+    m = mk_matrix(a['m'])
+    raw = np.array(a['raw'], dtype=np.int32)
+    est = _make('propagation', a.get('options', {}))
+    orig = Propagation.fit
+
+    def fake_fit(self, input_matrix, *args, **kw):
+        if len(raw) != input_matrix.shape[0]:
+            raise AssertionError('prescribed labels have the wrong length')
+        self.labels_ = raw.copy()
+        self.bipartite = False
+        return self
+    Propagation.fit = fake_fit
+    try:
+        with _ArgsortRec() as rec:
+            est.fit(m)
+    finally:
+        Propagation.fit = orig
+    return {'labels': _ints(est.labels_), 'labels_row': _ints(est.labels_row_), 'labels_col': _ints(est.labels_col_),
+            'argsort': rec.calls, 'bipartite': bool(est.bipartite), 'probs': _dense(est.probs_),
+            'probs_row': _dense(est.probs_row_), 'probs_col': _dense(est.probs_col_), 'aggregate': _dense(est.aggregate_)}
